@@ -39,3 +39,9 @@ check("C13", "exploration", "runtime monitoring: one-boolean model monitor over 
       "and a disconnected operation must raise the documented error without a byte written or a file created.",
       "Trusted: the in-memory transport's write log; the interpretation that either documented exception is acceptable when both apply.",
       "DESIGN.md section 4 C13")
+check("C05", "exploration", "runtime monitoring: executable model of the expected host handshake compared with the recorded packet history; device model verifies signatures against its latest token",
+      "The configuration grid (0..4 keys x accepting step x public-key outcome x invalid challenge position x callback kind x maxdata x stray packets x reconnect x both "
+      "implementations) is enumerated completely in the thorough tier (covering sample in quick); for every configuration the host packet sequence, Sign() calls, callback count, "
+      "result/exception, `available`, adopted maxdata and the timeout used after the public key are compared with the model.",
+      "Trusted: the model of expected host behaviour in checks/c05.py (written from the property statement and AOSP protocol.txt); keyed-hash stub signers (real RSA in a subset).",
+      "DESIGN.md section 4 C05")
